@@ -283,6 +283,9 @@ func (r *runner) corrChild(out string) {
 		for _, cfg := range []Cfg{{Handler: "full", UDP: true}, {Handler: "full", UDP: false, TLS: true}} {
 			cases = append(cases, tunnelCases(rng, cfg)...)
 		}
+		mk := mikeyCases(!c.Quick())
+		r.dump.Dist["mikey-boundary-cases"] += len(mk)
+		cases = append(cases, mk...)
 		cases = append(cases, truncationCases(rng, Cfg{Handler: "full", UDP: true}, c.N(7, 1))...)
 		if !c.Quick() {
 			cases = append(cases, truncationCases(rng, Cfg{Handler: "full", UDP: false, TLS: true}, 3)...)
